@@ -46,7 +46,8 @@ def search(prop, seed, tier, repo, budget_ms=None):
     if not fams:
         return dict(note='no searcher family for ' + prop), None
     exe = build(repo)
-    budget = budget_ms or (40000 if tier == 'thorough' else 8000)
+    # quick: about 24 s in total, at least 8 s per family (a property with a single family gets the whole budget)
+    budget = budget_ms or (40000 if tier == 'thorough' else max(8000, 24000 // max(1, len(fams))))
     summary = dict(families=fams, budget_ms_per_family=budget, runs=[],
                    bounds='<=4 modes, <=5 patterns per mode from a pool of 46, lookaheads from a pool of 18 (both polarities), 4 token-type numberings, inputs <=16 chars over {a,b,c,e-acute,euro,emoji,newline,x}, <=20 operations; class expressions to nesting depth 2; planted unsupported constructs to depth 3')
     for f in fams:
